@@ -1005,6 +1005,8 @@ def c02(tier, seed):
         conv.append({"case": "conv", "prop": "C02", "ety": "tk", "steps": [_mk("arr", n), {"op": "into_array", "recv": [1]}, {"op": "from_native", "recv": [2]}, {"op": "into_native", "recv": [3]}, {"op": "from_array", "recv": [4]}],
                      "d": {"op": "byvalue-conversions", "n": n}})
     c.conform(binary, with_etys(conv, ["tk", "zst", "plain", "plz"]), "conversions")
+    # arrays of zero-sized elements longer than 32 bits / than isize::MAX (only such arrays can be that long)
+    c.conform(binary, [{"case": "big", "prop": "C02", "d": {"op": "zstviews", "shape": s}} for s in ("2^32", "2^62", "2^63-1", "2^63", "2^63+5", "2^64-1")], "huge-zst-arrays", sub="big")
     return c.finish()
 
 
